@@ -43,7 +43,7 @@ def run_cases(rec, tier, seed):
                         if idx is not None and rnd.random() < 0.5:
                             way_back(rec, idx, rnd)
     # larger / sparser arrays: the row-scan construction strategy needs >= 5 distinct values and few uncommon cells
-    n_big = 40 if tier == "quick" else 1500
+    n_big = 70 if tier == "quick" else 1500
     for _ in range(n_big):
         rows = rnd.choice([80, 120, 200, 400])
         ndim = rnd.choice([1, 1, 2])
@@ -77,9 +77,9 @@ def run_cases(rec, tier, seed):
         idx = rec.from_array(a, common=common, mapping=mapping, counts=counts)
         if idx is not None:
             way_back(rec, idx, rnd)
-        if counts is not None and rnd.random() < 0.6:
+        if counts is not None:
             # a caller keeps its counts dict and passes the SAME object to another construction of the same data
-            c2 = rnd.choice([None, max(U) + 1, rnd.choice(U)])
+            c2 = rnd.choice([None, None, None, max(U) + 1, rnd.choice(U)])
             m2 = mapping if (mapping is None or c2 is None or c2 in mapping) else None
             idx2 = rec.from_array(a, common=c2, mapping=m2, counts=counts)
             if idx2 is not None:
